@@ -252,7 +252,7 @@ def progress_run(n, interval_ticks, evs):
         c = mc.WorkerComms(MP_CONTEXTS['threading'], n, False)
         c.progress_bar_update_interval = float(interval_ticks)
         import ctypes
-        c._tasks_completed_array = c.ctx.Array('L', n, lock=c.ctx.RLock())
+        c.init_comms()          # (the array the library itself allocates)
         local = [[1000.0, 0] for _ in range(n)]
         done = 0
         for e in evs:
@@ -265,6 +265,12 @@ def progress_run(n, interval_ticks, evs):
             elif e[0] == 'F':
                 w = int(e[1:])
                 local[w] = list(c.task_completed_progress_bar(w, local[w][0], local[w][1], True))
+            elif e[0] == 'B':
+                # a burst: k tasks completed by worker w (large counts)
+                w, k = (int(x) for x in e[1:].split('x'))
+                for _ in range(k):
+                    local[w] = list(c.task_completed_progress_bar(w, local[w][0], local[w][1], False))
+                done += k
         return 'arr=%s pending=%s done=%d' % (','.join(str(x) for x in c._tasks_completed_array), ','.join(str(l[1]) for l in local), done)
     finally:
         mc.time = saved
